@@ -34,6 +34,13 @@ pub enum DocElem {
     /// `()`: a zero-sized element type (JSON null)
     #[serde(alias = "Zst")]
     Unit,
+    /// 128-bit integers (serde's buffered `Content` cannot hold them)
+    U128,
+    I128,
+    /// cells that are maps with integer keys
+    Map,
+    /// cells that are enums / tuples / chars
+    Mixed,
 }
 
 #[derive(Serialize, Deserialize, Clone, Debug, PartialEq)]
@@ -56,6 +63,10 @@ pub struct Trip {
     /// 8 shrink_to_fit, 9 clear then push two rows
     #[serde(default)]
     pub prep: Vec<u8>,
+    /// this many documents that must be REJECTED (an unreadable cell, a wrong length, a missing
+    /// field) are fed to the deserialiser first: rejecting them must not disturb later round trips
+    #[serde(default)]
+    pub noise: u8,
 }
 
 fn decode<T: DeserializeOwned>(text: &str, tr: Transport) -> Result<Result<TooDee<T>, String>, String> {
@@ -173,7 +184,26 @@ fn roundtrip_prepared<T: Serialize + DeserializeOwned + PartialEq + Debug + Clon
     roundtrip(&t, tr)
 }
 
+fn make_noise(n: u8, tr: Transport) {
+    const BAD: [&str; 6] = [
+        r#"{"num_cols":1,"num_rows":1,"data":[{"x":[]}]}"#,
+        r#"{"num_cols":1,"num_rows":2,"data":[1]}"#,
+        r#"{"num_cols":1,"num_rows":1}"#,
+        r#"{"num_cols":1,"num_rows":1,"data":[[[[[[1]]]]]]}"#,
+        r#"{"num_cols":2,"num_rows":1,"data":[1,"x"]}"#,
+        r#"{"num_cols":1,"num_rows":1,"data":[1"#,
+    ];
+    for i in 0..n.min(8) as usize {
+        let _ = decode::<u32>(BAD[i % BAD.len()], tr);
+        let _ = decode::<TooDee<u32>>(BAD[(i + 3) % BAD.len()], tr);
+    }
+}
+
 pub fn exec_trip(k: &Trip, ctx: &mut Ctx) -> Verdict {
+    if k.noise > 0 {
+        make_noise(k.noise, k.transport);
+        ctx.class("after-rejected-documents");
+    }
     let (cols, rows) = match k.big {
         Some((c, r)) => (c as usize, r as usize),
         None => (k.cols as usize, k.rows as usize),
@@ -217,6 +247,17 @@ pub fn exec_trip(k: &Trip, ctx: &mut Ctx) -> Verdict {
         DocElem::Bytes => roundtrip_prepared(build(cols, rows, |i| st(i).into_bytes()), &k.prep, |i| st(i).into_bytes(), k.transport)?,
         DocElem::Nested => roundtrip(&build(cols, rows, |i| build((int(i).unsigned_abs() % 3) as usize, (i % 3) as usize, |j| (i * 10 + j) as u32)), k.transport)?,
         DocElem::Unit => roundtrip_prepared(build(cols, rows, |_| ()), &k.prep, |_| (), k.transport)?,
+        DocElem::U128 => roundtrip_prepared(build(cols, rows, |i| int(i) as u64 as u128), &k.prep, |i| int(i) as u64 as u128, k.transport)?,
+        DocElem::I128 => roundtrip_prepared(build(cols, rows, |i| int(i) as i128), &k.prep, |i| int(i) as i128, k.transport)?,
+        DocElem::Map => {
+            let f = |i: usize| -> std::collections::BTreeMap<u32, String> { (0..(i % 3) as u32).map(|j| (int(i + j as usize) as u32, st(i + j as usize))).collect() };
+            roundtrip_prepared(build(cols, rows, f), &k.prep, f, k.transport)?
+        }
+        DocElem::Mixed => {
+            // (no Option<()>: serde_json writes Some(()) as null and reads it back as None)
+            let f = |i: usize| -> (char, Result<u8, String>, [i16; 2], Option<bool>) { (char::from_u32(0x20 + (int(i).unsigned_abs() % 0xd000) as u32).unwrap_or('x'), if i % 2 == 0 { Ok(i as u8) } else { Err(st(i)) }, [int(i) as i16, -1], if i % 3 == 0 { None } else { Some(i % 2 == 0) }) };
+            roundtrip_prepared(build(cols, rows, f), &k.prep, f, k.transport)?
+        }
     }
     if !k.prep.is_empty() {
         ctx.class("array-built-by-a-structural-history");
@@ -266,25 +307,30 @@ impl Prop for C18 {
         "all shapes (0..=6)^2 x 6 element types x 4 transports; all window embeddings with margins in {0,1,2}^4 of shapes (0..=3)^2 x view/view_mut x 4 transports".into()
     }
     fn enumerate(_tier: Tier, emit: &mut dyn FnMut(Trip)) {
-        for elem in [DocElem::U32, DocElem::I64, DocElem::Str, DocElem::OptU32, DocElem::Bytes, DocElem::Nested, DocElem::Unit] {
+        for elem in [DocElem::U32, DocElem::I64, DocElem::Str, DocElem::OptU32, DocElem::Bytes, DocElem::Nested, DocElem::Unit, DocElem::U128, DocElem::I128, DocElem::Map, DocElem::Mixed] {
             for tr in [Transport::Str, Transport::Slice, Transport::Reader, Transport::Value] {
                 for cols in 0u8..=6 {
                     for rows in 0u8..=6 {
                         if (cols == 0) != (rows == 0) {
                             continue;
                         }
-                        emit(Trip { elem, cols, rows, ints: vec![0, -1, 7, i64::MAX, i64::MIN, 4294967295, 3], strs: vec!["".into(), "a\"b".into(), "\\".into(), "\u{0}\n".into(), "é😀".into()], view: None, transport: tr, big: None, prep: vec![] });
+                        emit(Trip { elem, cols, rows, ints: vec![0, -1, 7, i64::MAX, i64::MIN, 4294967295, 3], strs: vec!["".into(), "a\"b".into(), "\\".into(), "\u{0}\n".into(), "é😀".into()], view: None, transport: tr, big: None, prep: vec![], noise: 0 });
                     }
                 }
             }
         }
         // a few large arrays and views around power-of-two cell counts (size-dependent fast paths)
+        // round trips after many rejected documents (state kept between calls, if any, must not matter)
+        for i in 0..48u8 {
+            let tr = [Transport::Str, Transport::Slice, Transport::Reader, Transport::Value][i as usize % 4];
+            emit(Trip { elem: if i % 2 == 0 { DocElem::U32 } else { DocElem::Nested }, cols: 2, rows: 1 + i % 3, ints: vec![i as i64, 7, 9], strs: vec![], view: None, transport: tr, big: None, prep: vec![], noise: 8 });
+        }
         // arrays that went through structural operations before being serialised
         for tr in [Transport::Str, Transport::Slice, Transport::Reader, Transport::Value] {
             for elem in [DocElem::U32, DocElem::Str, DocElem::Unit] {
                 for (cols, rows) in [(0u8, 0u8), (1, 1), (2, 3), (4, 2)] {
                     for prep in [vec![0u8], vec![1], vec![2], vec![3], vec![4, 5], vec![5, 0], vec![6], vec![7, 8], vec![9], vec![3, 3, 3, 3], vec![1, 1, 1], vec![2, 6, 0], vec![3, 2, 1, 0, 6, 5]] {
-                        emit(Trip { elem, cols, rows, ints: vec![3, 1, 4, 1, 5, 9, 2, 6], strs: vec!["x".into(), "\"".into(), "".into()], view: None, transport: tr, big: None, prep });
+                        emit(Trip { elem, cols, rows, ints: vec![3, 1, 4, 1, 5, 9, 2, 6], strs: vec!["x".into(), "\"".into(), "".into()], view: None, transport: tr, big: None, prep, noise: 0 });
                     }
                 }
             }
@@ -292,26 +338,26 @@ impl Prop for C18 {
         // every transport with more than 2^18 u32 cells / 2^17 i64 cells / 2^16 strings, and arrays of
         // `()` with a dimension beyond 65535
         for tr in [Transport::Str, Transport::Slice, Transport::Reader, Transport::Value] {
-            emit(Trip { elem: DocElem::U32, cols: 1, rows: 1, ints: vec![1, 2, 3, 70000], strs: vec![], view: None, transport: tr, big: Some((600, 600)), prep: vec![] });
-            emit(Trip { elem: DocElem::I64, cols: 1, rows: 1, ints: vec![-1, 2, i64::MAX], strs: vec![], view: None, transport: tr, big: Some((300, 450)), prep: vec![] });
-            emit(Trip { elem: DocElem::Str, cols: 1, rows: 1, ints: vec![], strs: vec!["a".into(), "".into(), "\\u".into()], view: None, transport: tr, big: Some((260, 255)), prep: vec![] });
-            emit(Trip { elem: DocElem::OptU32, cols: 1, rows: 1, ints: vec![0, 1, 2, 3, 4], strs: vec![], view: None, transport: tr, big: Some((1, 140_000)), prep: vec![] });
-            emit(Trip { elem: DocElem::Unit, cols: 1, rows: 1, ints: vec![], strs: vec![], view: None, transport: tr, big: Some((70_000, 1)), prep: vec![] });
-            emit(Trip { elem: DocElem::Unit, cols: 1, rows: 1, ints: vec![], strs: vec![], view: None, transport: tr, big: Some((2, 65_536)), prep: vec![] });
-            emit(Trip { elem: DocElem::Unit, cols: 1, rows: 1, ints: vec![], strs: vec![], view: None, transport: tr, big: Some((65_537, 3)), prep: vec![] });
-            emit(Trip { elem: DocElem::U32, cols: 1, rows: 1, ints: vec![6, 5], strs: vec![], view: Some(([1, 1, 0, 1], tr == Transport::Value)), transport: tr, big: Some((70_001, 4)), prep: vec![] });
+            emit(Trip { elem: DocElem::U32, cols: 1, rows: 1, ints: vec![1, 2, 3, 70000], strs: vec![], view: None, transport: tr, big: Some((600, 600)), prep: vec![], noise: 0 });
+            emit(Trip { elem: DocElem::I64, cols: 1, rows: 1, ints: vec![-1, 2, i64::MAX], strs: vec![], view: None, transport: tr, big: Some((300, 450)), prep: vec![], noise: 0 });
+            emit(Trip { elem: DocElem::Str, cols: 1, rows: 1, ints: vec![], strs: vec!["a".into(), "".into(), "\\u".into()], view: None, transport: tr, big: Some((260, 255)), prep: vec![], noise: 0 });
+            emit(Trip { elem: DocElem::OptU32, cols: 1, rows: 1, ints: vec![0, 1, 2, 3, 4], strs: vec![], view: None, transport: tr, big: Some((1, 140_000)), prep: vec![], noise: 0 });
+            emit(Trip { elem: DocElem::Unit, cols: 1, rows: 1, ints: vec![], strs: vec![], view: None, transport: tr, big: Some((70_000, 1)), prep: vec![], noise: 0 });
+            emit(Trip { elem: DocElem::Unit, cols: 1, rows: 1, ints: vec![], strs: vec![], view: None, transport: tr, big: Some((2, 65_536)), prep: vec![], noise: 0 });
+            emit(Trip { elem: DocElem::Unit, cols: 1, rows: 1, ints: vec![], strs: vec![], view: None, transport: tr, big: Some((65_537, 3)), prep: vec![], noise: 0 });
+            emit(Trip { elem: DocElem::U32, cols: 1, rows: 1, ints: vec![6, 5], strs: vec![], view: Some(([1, 1, 0, 1], tr == Transport::Value)), transport: tr, big: Some((70_001, 4)), prep: vec![], noise: 0 });
         }
         for (i, (c, r)) in [(600u32, 450u32), (520, 505), (257, 256), (1030, 64)].into_iter().enumerate() {
             let tr = [Transport::Str, Transport::Slice, Transport::Reader, Transport::Value][i % 4];
-            emit(Trip { elem: DocElem::U32, cols: 1, rows: 1, ints: vec![1, 2, 3], strs: vec![], view: None, transport: tr, big: Some((c, r)), prep: vec![] });
-            emit(Trip { elem: DocElem::U32, cols: 1, rows: 1, ints: vec![4, 5, 6, 7], strs: vec![], view: Some(([0, 0, 0, 0], false)), transport: [Transport::Reader, Transport::Str, Transport::Slice, Transport::Value][i % 4], big: Some((c, r)), prep: vec![] });
-            emit(Trip { elem: DocElem::U32, cols: 1, rows: 1, ints: vec![9, 8], strs: vec![], view: Some(([1, 0, 0, 1], true)), transport: tr, big: Some((c - 1, r)), prep: vec![] });
+            emit(Trip { elem: DocElem::U32, cols: 1, rows: 1, ints: vec![1, 2, 3], strs: vec![], view: None, transport: tr, big: Some((c, r)), prep: vec![], noise: 0 });
+            emit(Trip { elem: DocElem::U32, cols: 1, rows: 1, ints: vec![4, 5, 6, 7], strs: vec![], view: Some(([0, 0, 0, 0], false)), transport: [Transport::Reader, Transport::Str, Transport::Slice, Transport::Value][i % 4], big: Some((c, r)), prep: vec![], noise: 0 });
+            emit(Trip { elem: DocElem::U32, cols: 1, rows: 1, ints: vec![9, 8], strs: vec![], view: Some(([1, 0, 0, 1], true)), transport: tr, big: Some((c - 1, r)), prep: vec![], noise: 0 });
         }
         for (i, (cols, rows)) in [(255u8, 255u8), (255, 129), (128, 64), (65, 64)].into_iter().enumerate() {
             let tr = [Transport::Str, Transport::Slice, Transport::Reader, Transport::Value][i % 4];
-            emit(Trip { elem: DocElem::U32, cols, rows, ints: vec![1, 2, 3], strs: vec![], view: None, transport: tr, big: None, prep: vec![] });
-            emit(Trip { elem: DocElem::U32, cols, rows, ints: vec![4, 5, 6, 7], strs: vec![], view: Some(([0, 0, 0, 0], false)), transport: [Transport::Reader, Transport::Str, Transport::Slice, Transport::Value][i % 4], big: None, prep: vec![] });
-            emit(Trip { elem: DocElem::U32, cols: cols - 1, rows, ints: vec![9, 8], strs: vec![], view: Some(([1, 0, 0, 1], true)), transport: tr, big: None, prep: vec![] });
+            emit(Trip { elem: DocElem::U32, cols, rows, ints: vec![1, 2, 3], strs: vec![], view: None, transport: tr, big: None, prep: vec![], noise: 0 });
+            emit(Trip { elem: DocElem::U32, cols, rows, ints: vec![4, 5, 6, 7], strs: vec![], view: Some(([0, 0, 0, 0], false)), transport: [Transport::Reader, Transport::Str, Transport::Slice, Transport::Value][i % 4], big: None, prep: vec![], noise: 0 });
+            emit(Trip { elem: DocElem::U32, cols: cols - 1, rows, ints: vec![9, 8], strs: vec![], view: Some(([1, 0, 0, 1], true)), transport: tr, big: None, prep: vec![], noise: 0 });
         }
         for tr in [Transport::Str, Transport::Slice, Transport::Reader, Transport::Value] {
             for mutable in [false, true] {
@@ -321,7 +367,7 @@ impl Prop for C18 {
                             for t in 0u8..3 {
                                 for r in 0u8..3 {
                                     for b in 0u8..2 {
-                                        emit(Trip { elem: DocElem::U32, cols, rows, ints: vec![5, 9, 100, 7, 3, 1, 8], strs: vec![], view: Some(([l, t, r, b], mutable)), transport: tr, big: None, prep: vec![] });
+                                        emit(Trip { elem: DocElem::U32, cols, rows, ints: vec![5, 9, 100, 7, 3, 1, 8], strs: vec![], view: Some(([l, t, r, b], mutable)), transport: tr, big: None, prep: vec![], noise: 0 });
                                     }
                                 }
                             }
@@ -333,11 +379,11 @@ impl Prop for C18 {
     }
     fn strategy(_t: Tier) -> BoxedStrategy<Trip> {
         let shape = prop_oneof![6 => (0u8..=6, 0u8..=6), 1 => (1u8..=1, 1u8..=20), 1 => (1u8..=20, 1u8..=1)];
-        let elem = prop_oneof![1 => Just(DocElem::U32), 1 => Just(DocElem::I64), 3 => Just(DocElem::Str), 1 => Just(DocElem::OptU32), 1 => Just(DocElem::Bytes), 1 => Just(DocElem::Nested), 1 => Just(DocElem::Unit)];
-        (elem, shape, prop::collection::vec(any::<i64>(), 0..8), prop::collection::vec(nasty_string(), 0..6), prop::option::weighted(0.3, (small_margin(), any::<bool>())), transport(), prop_oneof![3 => Just(vec![]), 1 => prop::collection::vec(0u8..10, 1..8)])
-            .prop_map(|(elem, (cols, rows), ints, strs, view, transport, prep)| {
+        let elem = prop_oneof![1 => Just(DocElem::U32), 1 => Just(DocElem::I64), 3 => Just(DocElem::Str), 1 => Just(DocElem::OptU32), 1 => Just(DocElem::Bytes), 1 => Just(DocElem::Nested), 1 => Just(DocElem::Unit), 1 => Just(DocElem::U128), 1 => Just(DocElem::I128), 1 => Just(DocElem::Map), 1 => Just(DocElem::Mixed)];
+        (elem, shape, prop::collection::vec(any::<i64>(), 0..8), prop::collection::vec(nasty_string(), 0..6), prop::option::weighted(0.3, (small_margin(), any::<bool>())), transport(), prop_oneof![3 => Just(vec![]), 1 => prop::collection::vec(0u8..10, 1..8)], prop_oneof![3 => Just(0u8), 1 => 1u8..6])
+            .prop_map(|(elem, (cols, rows), ints, strs, view, transport, prep, noise)| {
                 let (cols, rows) = if view.is_none() && (cols == 0 || rows == 0) { (0, 0) } else { (cols, rows) };
-                Trip { elem, cols, rows, ints, strs, view, transport, big: None, prep }
+                Trip { elem, cols, rows, ints, strs, view, transport, big: None, prep, noise }
             })
             .boxed()
     }
@@ -371,7 +417,7 @@ impl Prop for C18 {
         exec_trip(k, ctx)
     }
     fn essential_classes() -> &'static [&'static str] {
-        &["non-empty-via-reader-or-value", "empty-array", "strided-view", "view_mut", "view", "string-needing-escapes", "Nested", "Str", "Reader", "Value", "Slice", "array-built-by-a-structural-history"]
+        &["non-empty-via-reader-or-value", "empty-array", "strided-view", "view_mut", "view", "string-needing-escapes", "Nested", "Str", "Reader", "Value", "Slice", "array-built-by-a-structural-history", "after-rejected-documents", "U128", "I128", "Map", "Mixed"]
     }
 }
 
@@ -478,6 +524,12 @@ fn check_accepted<T: Serialize + Debug>(t: &TooDee<T>, fields: &[(String, Value)
     let has = |name: &str, want: &Value| fields.iter().any(|(k, v)| k == name && v == want);
     ensure!(has("num_cols", &Value::from(c as u64)), "accepted/num_cols-not-stated", "accepted array has num_cols {} but the document states {:?} (document {})", c, fields.iter().filter(|(k, _)| k == "num_cols").map(|(_, v)| v).collect::<Vec<_>>(), text);
     ensure!(has("num_rows", &Value::from(r as u64)), "accepted/num_rows-not-stated", "accepted array has num_rows {} but the document states {:?} (document {})", r, fields.iter().filter(|(k, _)| k == "num_rows").map(|(_, v)| v).collect::<Vec<_>>(), text);
+    // a field that occurs more than once with DIFFERENT values states nothing definite: the array
+    // cannot be "exactly what the document states" (equal repetitions are harmless)
+    for name in ["num_cols", "num_rows", "data"] {
+        let occ: Vec<&Value> = fields.iter().filter(|(k, _)| k == name).map(|(_, v)| v).collect();
+        ensure!(occ.windows(2).all(|w| w[0] == w[1]), "accepted/conflicting-duplicates", "a document that states {} {} times with different values ({:?}) was accepted as a {}x{} array (document {})", name, occ.len(), occ.iter().map(|v| short(&v.to_string())).collect::<Vec<_>>(), c, r, short(text));
+    }
     let cells = serde_json::to_value(t.data()).unwrap();
     ensure!(has("data", &cells), "accepted/cells-not-stated", "accepted array has cells {} but the document's data is {:?} (document {})", cells, fields.iter().filter(|(k, _)| k == "data").map(|(_, v)| v.to_string()).collect::<Vec<_>>(), text);
     Ok(())
@@ -544,7 +596,7 @@ pub fn exec_doc(k: &Doc, ctx: &mut Ctx) -> Verdict {
     };
     let fr = fields.as_deref();
     match k.elem {
-        DocElem::U32 | DocElem::I64 | DocElem::Bytes | DocElem::Nested => check_doc::<u32>(&text, k.transport, fr, ctx)?,
+        DocElem::U32 | DocElem::I64 | DocElem::Bytes | DocElem::Nested | DocElem::U128 | DocElem::I128 | DocElem::Map | DocElem::Mixed => check_doc::<u32>(&text, k.transport, fr, ctx)?,
         DocElem::Unit => check_doc::<()>(&text, k.transport, fr, ctx)?,
         DocElem::Str => check_doc::<String>(&text, k.transport, fr, ctx)?,
         DocElem::OptU32 => check_doc::<Option<u32>>(&text, k.transport, fr, ctx)?,
@@ -734,6 +786,9 @@ fn doc_strategy() -> BoxedStrategy<Doc> {
                             let f = if f.0 == "data" && rnd[0] % 2 == 0 {
                                 // a second, different data array
                                 (f.0, Val::Arr(vec![extra.clone(); (rnd[1] % 5) as usize]))
+                            } else if rnd[0] % 3 == 1 {
+                                // a second occurrence with another value (null, a wrong type, another number)
+                                (f.0, if rnd[1] % 2 == 0 { Val::Null } else { wrong.clone() })
                             } else {
                                 f
                             };
@@ -832,6 +887,20 @@ impl Prop for C19 {
                         let mut f = base.clone();
                         f.insert(at, (key.clone(), Val::U(1)));
                         emit(Doc { elem: DocElem::U32, fields: Some(f), top: Val::Null, ws: 0, transport: tr });
+                    }
+                }
+            }
+        }
+        // a field stated twice with different values (null / other number first or last)
+        for tr in [Transport::Str, Transport::Slice, Transport::Reader, Transport::Value] {
+            for name in ["num_cols", "num_rows", "data"] {
+                for other in [Val::Null, Val::U(1), Val::Arr(vec![]), Val::Arr(vec![Val::U(5), Val::U(6)]), Val::S("2".into())] {
+                    for first in [true, false] {
+                        let mut f: Vec<(String, Val)> = vec![("num_cols".into(), Val::U(2)), ("num_rows".into(), Val::U(1)), ("data".into(), Val::Arr(vec![Val::U(5), Val::U(6)]))];
+                        let at = f.iter().position(|x| x.0 == name).unwrap();
+                        f.insert(if first { at } else { at + 1 }, (name.to_string(), other.clone()));
+                        emit(Doc { elem: DocElem::U32, fields: Some(f.clone()), top: Val::Null, ws: 0, transport: tr });
+                        emit(Doc { elem: DocElem::OptU32, fields: Some(f), top: Val::Null, ws: 1, transport: tr });
                     }
                 }
             }
